@@ -9,6 +9,7 @@ import (
 
 	"github.com/ava-labs/avalanchego/utils/set"
 
+	"github.com/ava-labs/hypersdk/internal/verifhook"
 	"github.com/ava-labs/hypersdk/state"
 
 	uatomic "go.uber.org/atomic"
@@ -63,6 +64,7 @@ func (e *Executor) work() {
 		if !ok {
 			return
 		}
+		verifhook.YieldK("executor.work", uint64(t.id))
 		e.runTask(t)
 	}
 }
@@ -94,6 +96,7 @@ func (e *Executor) runTask(t *task) {
 	defer func() {
 		// Notify other tasks that we are done reading them
 		for _, rt := range t.reading {
+			verifhook.AwaitLock("executor.done.reader", uint64(t.id)<<32|uint64(rt.id), &rt.l)
 			rt.l.Lock()
 			delete(rt.readers, t.id)
 			rt.l.Unlock()
@@ -101,9 +104,11 @@ func (e *Executor) runTask(t *task) {
 		t.reading = nil
 
 		// Notify blocked tasks that they can execute
+		verifhook.AwaitLock("executor.done.self", uint64(t.id), &t.l)
 		t.l.Lock()
 		for _, bt := range t.blocked {
 			// If we are the last dependency, mark the task as executable.
+			verifhook.YieldK("executor.done.notify", uint64(t.id)<<32|uint64(bt.id))
 			if bt.dependencies.Add(-1) > 0 {
 				continue
 			}
@@ -112,11 +117,13 @@ func (e *Executor) runTask(t *task) {
 		t.blocked = nil // free memory
 		t.executed = true
 		t.l.Unlock()
+		verifhook.YieldK("executor.done.outstanding", uint64(t.id))
 		e.outstanding.Done()
 	}()
 
 	// We avoid doing this check when adding tasks to the queue
 	// because it would require more synchronization.
+	verifhook.YieldK("executor.run.check", uint64(t.id))
 	if e.err.Load() != nil {
 		return
 	}
@@ -164,6 +171,7 @@ func (e *Executor) Run(keys state.Keys, f func() error) {
 	for k, v := range keys {
 		lt, ok := e.nodes[k]
 		if ok {
+			verifhook.AwaitLock("executor.Run.last", uint64(id)<<32|uint64(lt.id), &lt.l)
 			lt.l.Lock()
 			if v == state.Read {
 				// If we don't need exclusive access to a key, just mark
@@ -185,6 +193,7 @@ func (e *Executor) Run(keys state.Keys, f func() error) {
 					if rt.id == id {
 						continue
 					}
+					verifhook.AwaitLock("executor.Run.reader", uint64(id)<<32|uint64(rt.id), &rt.l)
 					rt.l.Lock()
 					rt.blocked[id] = t
 					rt.l.Unlock()
@@ -207,6 +216,7 @@ func (e *Executor) Run(keys state.Keys, f func() error) {
 	}
 
 	// Adjust dependency traker and execute if necessary
+	verifhook.YieldK("executor.Run.adjust", uint64(id))
 	difference := e.maxDependencies - int64(dependencies.Len())
 	if t.dependencies.Add(-difference) > 0 {
 		if e.metrics != nil {
@@ -216,6 +226,7 @@ func (e *Executor) Run(keys state.Keys, f func() error) {
 	}
 
 	// Mark task for execution if we aren't waiting on any other tasks
+	verifhook.YieldK("executor.Run.enqueue", uint64(id))
 	e.executable <- t
 	if e.metrics != nil {
 		e.metrics.RecordExecutable()
@@ -230,7 +241,9 @@ func (e *Executor) Stop() {
 //
 // You should not call [Run] after [Wait] is called.
 func (e *Executor) Wait() error {
+	verifhook.Yield("executor.Wait.before")
 	e.outstanding.Wait()
+	verifhook.Yield("executor.Wait.after")
 	close(e.executable)
 	e.workers.Wait()
 	return e.err.Load()
